@@ -26,6 +26,8 @@ type c01Case struct {
 	Stdin    bool      `json:"file_from_stdin"`
 	VPN      bool      `json:"vpn"`
 	Seed     int64     `json:"rand_seed"`
+	// TestC02ListNextToSubnet only: the exclusion entries are split over two files given as "--exclude f1,f2"
+	ExcludeAsList bool `json:"exclude_given_as_two_files_comma_separated,omitempty"`
 }
 
 const (
